@@ -1,4 +1,6 @@
 import DendroModel.Model.C14NJ
+import DendroModel.Theory.C14Cherry
+import DendroModel.Gen.C14Kernels
 import Mathlib.Algebra.BigOperators.Group.List.Basic
 import Mathlib.Algebra.Field.Basic
 import Mathlib.Data.List.Nodup
@@ -29,19 +31,29 @@ Clauses of the statement and where they are proved, for every tree / every numbe
      `upgma_realises` (any matrix with the strong triangle inequality is realised exactly by the returned tree),
      `ultra_three_point`, `upgma_inverts_ultrametric_tree`, `ultra_unique`, **`upgma_recovers_tree`** (full UPGMA clause:
      source tree returned up to child swaps, lengths included), `frac_upgma_recovers_tree`;
-     `nj_realises_of_cherry_picking_partial` (induction over contractions; hypothesis = the cherry-picking lemma),
+     `nj_realises_of_cherry_picking` (induction over contractions; hypothesis = the cherry-picking lemma),
      `nj_realises_three` (unconditional for ≤ 3 taxa), `cherry_of_three`, `nrel_pool_le`;
      `frac_mean_pairwise_both`, `frac_mntd` (both weightings at `Frac`);
      `treemeasure_climb_spec`, `treemeasure_spec`, `treemeasure_current_spec`, `frac_treemeasure_spec`
      (`Tree.mrca` + two climbs = unique path length).
  Final round: `pdm_three_point`, `upgma_inverts_pdm` (clause (a) composed with clause (d) on the library's tree shape `T`);
      `nj_four_cherry`, `nj_realises_four` (cherry-picking lemma and NJ inversion proved for four taxa).
- Last round: `MinQCherryAt` (cherry-picking lemma as a statement about finite metrics), `nj_realises_of_quartet_lemma_partial`
+ Last round: `MinQCherryAt` (cherry-picking lemma as a statement about finite metrics), `nj_realises_of_quartet_lemma`
      (NJ's correctness reduced to it; all NJ machinery discharged), `minQ_cherry_four`, `minQ_cherry_five`, `nj_realises_five`,
      `frac_nj_realises_five` (NJ inverts every additive metric with positive internal edges on ≤ 5 taxa); `nrel_quartet`,
      `cherry_of_balanced`, `qval_eq_Qfun`; `tree_four_point` (distances of a tree with positive internal edges satisfy the strict
      four-point condition), `nj_inverts_tree_five` (NJ clause about trees, n ≤ 5), `nj_inverts_tree_partial` (any n, given the lemma
-     for pools of 6 … n).  Missing: `MinQCherryAt α N` for N ≥ 6; uniqueness of additive trees.
+     for pools of 6 … n).
+ Extension round 3: **`minQ_cherry_all`** — the neighbour-joining consistency lemma (Saitou–Nei / Studier–Keppler: a Q-minimal pair of
+     a metric with the strict four-point condition is a cherry) for every number of labels, proved without a tree in
+     `Theory/C14Cherry.lean` (`Cherry.minQ_cherry`); hence **`nj_realises`** (NJ inverts every additive metric with positive internal
+     edges, any n; `nj_realises_of_cherry_picking` / `nj_realises_of_quartet_lemma` are now lemmas with their hypothesis
+     discharged), **`nj_inverts_tree`** (the NJ clause about trees, any n; replaces `nj_inverts_tree_partial`), `frac_nj_realises`
+     (at the driver's type).  Tie A: `gen_njQ`, `gen_njNewDist`, `gen_njJoin_d`, `gen_njJoin_x`, `gen_njLengths`, `gen_njContinue`,
+     `gen_pick_strict`, `gen_upNewDist`, `gen_upJoin_sub`, `gen_upJoin_h` — the model's NJ / UPGMA formulas equal the kernels
+     regenerated from the source (`Gen/C14Kernels.lean`).  `nj_run_states`, `nj_states_inv`, `up_run_states`: the traced loop states
+     (ops `njtrace` / `uptrace`) are the states of the runs the theorems speak about.
+     Missing: uniqueness of the tree realising an additive metric (from "the same path lengths" to "the same unrooted topology").
  Bridge to the driver's number type: `toRat` is a homomorphism on fractions with non-zero denominator (`Aux.toRat_*`), the
  models are natural in the number type (`Aux.entries_nat`, `Aux.nj_run_rel`, `Aux.up_run_rel`), hence the statements at
  `Frac`: `frac_pdm_spec`, `frac_pdm_lookup_spec`, `frac_nj_rowsum_invariant`, `frac_nj_tree`, `frac_upgma_tree`. -/
@@ -1239,10 +1251,9 @@ variable [Field α]
 additive metric (pendant lengths `Lf`, `Lg`; every other pool member `k` at distance `Lf + u k` resp. `Lg + u k`), the
 pass produces the subtree `(f:Lf, g:Lg)`, the distances of the new node are those of the cherry's parent (`u`), all other
 distances are untouched, and the bookkeeping invariant holds again — i.e. the state is that of the contracted tree.
-STATUS: this is one step only.  The induction over contractions is `nj_realises_of_cherry_picking_partial`; the cherry-picking
-lemma (the Q-minimal pair of an additive metric with positive internal edges *is* a cherry) is proved for up to four taxa
-(`nj_four_cherry`, `nj_realises_four`, `nj_realises_three`) and NOT for n ≥ 5, where the NJ reconstruction clause is tested
-(generated additive inputs, implementation and model), not proved. -/
+STATUS: this is one step only (hence the name).  The induction over contractions is `nj_realises_of_cherry_picking`; the
+cherry-picking lemma (the Q-minimal pair of an additive metric with positive internal edges *is* a cherry) is `minQ_cherry_all`,
+and the unconditional clause is `nj_realises` / `nj_inverts_tree`. -/
 theorem nj_recovers_tree_partial [CharZero α] (s : NJ α) (f g : Nat) (h : NJInv s) (hf : f ∈ s.pool) (hg : g ∈ s.pool)
     (hfg : f ≠ g) (hn : s.pool.length > 2) (Lf Lg : α) (u : Nat → α) (hfg' : s.d f g = Lf + Lg)
     (hu : ∀ k ∈ (s.pool.erase f).erase g, s.d f k = Lf + u k ∧ s.d g k = Lg + u k) :
@@ -2841,14 +2852,14 @@ theorem nj_step_nrel (d0 : Nat → Nat → α) (n : Nat)
       refine nj_join_nrel d0 n s h f g hf hg hfg (s.d f g / ((2 : Nat) : α)) (s.d f g / ((2 : Nat) : α)) (fun _ => 0)
         (by simp [njLengths, hn]) (by field_simp; ring) (fun k hk => by rw [hnil] at hk; simp at hk)
 
-/-- (d) **partial** — the induction over contractions of neighbour joining's correctness, with the consistency lemma as its only
+/-- (d) the induction over contractions of neighbour joining's correctness, with the consistency lemma as its only
 hypothesis.  If in every state the run can reach (`NRel`: the invariant below) with more than two pool nodes the Q-minimal
 pair the code picks is a cherry (`hch`), then for `n ≥ 1` taxa `nj_tree` returns a tree whose leaves are exactly the taxa
 and in which the path length between any two taxa is exactly the input distance: NJ inverts the matrix, branch lengths
-included.  MISSING for the unconditional clause: `hch` itself for additive input with positive internal edge lengths (the
-cherry-picking lemma of Saitou–Nei / Studier–Keppler), and uniqueness of the tree realising an additive metric (to conclude
-"isomorphic to the source tree" from "same path lengths"). -/
-theorem nj_realises_of_cherry_picking_partial (n : Nat) (d : Nat → Nat → α) (hd : ∀ a < n, ∀ b < n, d a b = d b a) (hn : 1 ≤ n)
+included.  `hch` is discharged for additive input with positive internal edge lengths by `minQ_cherry_all` (the cherry-picking
+lemma of Saitou–Nei / Studier–Keppler) in `nj_realises`; still missing is uniqueness of the tree realising an additive metric
+(to conclude "isomorphic to the source tree" from "same path lengths"). -/
+theorem nj_realises_of_cherry_picking (n : Nat) (d : Nat → Nat → α) (hd : ∀ a < n, ∀ b < n, d a b = d b a) (hn : 1 ≤ n)
     (hch : ∀ s : NJ α, NRel d n s → s.pool.length > 2 → ∀ f g, njPick s = some (f, g) → Cherry s f g) :
     ∃ r, njTree n d = some r ∧ (NT.leafIds r).Perm (List.range n) ∧
       ∀ i < n, ∀ j < n, i ≠ j → NT.dist r i j = some (d i j) := by
@@ -2916,11 +2927,11 @@ theorem cherry_of_three (s : NJ α) (hs : ∀ a ∈ s.pool, ∀ b ∈ s.pool, s.
   constructor <;> (field_simp; ring)
 
 /-- (d) unconditional for up to three taxa: `nj_tree` inverts every symmetric matrix on `n ≤ 3` taxa (any three points are
-realised by a star) — an instance where the hypothesis of `nj_realises_of_cherry_picking_partial` is discharged -/
+realised by a star) — an instance where the hypothesis of `nj_realises_of_cherry_picking` is discharged -/
 theorem nj_realises_three (n : Nat) (d : Nat → Nat → α) (hd : ∀ a < n, ∀ b < n, d a b = d b a) (hn : 1 ≤ n) (h3 : n ≤ 3) :
     ∃ r, njTree n d = some r ∧ (NT.leafIds r).Perm (List.range n) ∧
       ∀ i < n, ∀ j < n, i ≠ j → NT.dist r i j = some (d i j) := by
-  apply nj_realises_of_cherry_picking_partial n d hd hn
+  apply nj_realises_of_cherry_picking n d hd hn
   intro s h hlen f g hp
   obtain ⟨hf, hg, hfg⟩ := nj_pick_mem s h.inv.nodup f g hp
   have := nrel_pool_le d n s h
@@ -4388,13 +4399,13 @@ end Aux
 /-- (d) `nj_realises_four` — neighbour joining inverts every quartet metric with a positive internal edge: for four taxa whose
 distances satisfy the strict four-point condition (in every arrangement of the four taxa) and are symmetric, `nj_tree` returns a
 tree on the four taxa with exactly the input path lengths.  Here the hypothesis `hch` of
-`nj_realises_of_cherry_picking_partial` is *proved*: with four pool members the Q-minimal pair is the cherry of the quartet
+`nj_realises_of_cherry_picking` is *proved*: with four pool members the Q-minimal pair is the cherry of the quartet
 (`nj_four_cherry`), with three any pair is. -/
 theorem nj_realises_four (d : Nat → Nat → α) (hd : ∀ a < 4, ∀ b < 4, d a b = d b a)
     (hq : ∀ p < 4, ∀ q < 4, ∀ r < 4, ∀ t < 4, [p, q, r, t].Nodup → QuartetAt d p q r t) :
     ∃ r, njTree 4 d = some r ∧ (NT.leafIds r).Perm (List.range 4) ∧
       ∀ i < 4, ∀ j < 4, i ≠ j → NT.dist r i j = some (d i j) := by
-  apply nj_realises_of_cherry_picking_partial 4 d hd (by decide)
+  apply nj_realises_of_cherry_picking 4 d hd (by decide)
   intro s h hlen f g hp
   have hle := nrel_pool_le d 4 s h
   by_cases h3 : s.pool.length = 3
@@ -4655,20 +4666,18 @@ theorem nrel_quartet (d : Nat → Nat → α) (n : Nat) (hq : StrictFourPoint (L
 
 variable [CharZero α]
 
-/-- (d) **partial** — `nj_realises_of_quartet_lemma_partial`: the reduction of neighbour joining's correctness to the cherry-picking
+/-- (d) **partial** — `nj_realises_of_quartet_lemma`: the reduction of neighbour joining's correctness to the cherry-picking
 lemma *as a statement about finite metrics*.  If `MinQCherryAt α N` holds for every pool size `4 ≤ N ≤ n`, then for every
 symmetric matrix on `n ≥ 1` taxa with the strict four-point condition `nj_tree` returns a tree on exactly the taxa with exactly
 the input path lengths.  The NJ machinery is fully discharged here (row-sum invariant, Q = `Qfun`, inheritance of the four-point
 condition by the reduced matrices `nrel_quartet`, cherry ⇒ contracted state, induction over contractions).
-EXACT MISSING STEP: `MinQCherryAt α N` for `N ≥ 6` (proved below for `N = 4, 5` by deciding the finitely many quartet
-configurations with linear arithmetic; the general proof needs the subtree-size counting argument of Studier–Keppler on the
-tree that the four-point condition implies), and — for "that unrooted topology" rather than "those path lengths" — uniqueness
-of the tree realising an additive metric. -/
-theorem nj_realises_of_quartet_lemma_partial (n : Nat) (d : Nat → Nat → α) (hd : ∀ a < n, ∀ b < n, d a b = d b a) (hn : 1 ≤ n)
+The hypothesis is discharged for every `N` by `minQ_cherry_all` (below), which gives `nj_realises`; what stays open is — for
+"that unrooted topology" rather than "those path lengths" — uniqueness of the tree realising an additive metric. -/
+theorem nj_realises_of_quartet_lemma (n : Nat) (d : Nat → Nat → α) (hd : ∀ a < n, ∀ b < n, d a b = d b a) (hn : 1 ≤ n)
     (hq : StrictFourPoint (List.range n) d) (hlem : ∀ N, 4 ≤ N → N ≤ n → MinQCherryAt α N) :
     ∃ r, njTree n d = some r ∧ (NT.leafIds r).Perm (List.range n) ∧
       ∀ i < n, ∀ j < n, i ≠ j → NT.dist r i j = some (d i j) := by
-  apply nj_realises_of_cherry_picking_partial n d hd hn
+  apply nj_realises_of_cherry_picking n d hd hn
   intro s h hlen f g hp
   obtain ⟨hf, hg, hfg⟩ := nj_pick_mem s h.inv.nodup f g hp
   have hle := nrel_pool_le d n s h
@@ -4836,6 +4845,59 @@ theorem minQ_cherry_five : MinQCherryAt α 5 := by
 end smallN
 
 
+/-! ## extension round 3: the cherry-picking lemma for every number of labels, hence neighbour joining inverts every additive metric -/
+section njfull
+variable {α : Type} [Field α] [LinearOrder α] [IsStrictOrderedRing α]
+
+/-- (d) **the neighbour-joining consistency lemma** (Saitou–Nei / Studier–Keppler) for every number of labels: under the strict
+four-point condition a pair of minimal Q is a cherry.  The proof (`Theory/C14Cherry.lean`, `Cherry.minQ_cherry`) needs no tree:
+the other labels are ordered by where they leave the path `f … g`; of the two extreme groups one holds at most half of them; the
+deepest pair of that group (or `f` with its only member) has a strictly smaller Q unless all labels leave the path at one place. -/
+theorem minQ_cherry_all (N : Nat) : MinQCherryAt α N := by
+  intro pool D hnd _ hs hq f hf g hg hfg hmin k hk l hl hn
+  have hn' := hn
+  simp only [List.nodup_cons, List.mem_cons, List.mem_singleton, not_or, List.not_mem_nil, not_false_eq_true,
+    List.nodup_nil, and_true] at hn'
+  obtain ⟨⟨_, fk, fl⟩, ⟨gk, gl⟩, kl⟩ := hn'
+  have mem : ∀ {x}, x ∈ pool.toFinset → x ∈ pool := fun h => List.mem_toFinset.mp h
+  refine Cherry.minQ_cherry pool.toFinset D (fun a ha b hb => hs a (mem ha) b (mem hb)) ?_ f g
+    (List.mem_toFinset.mpr hf) (List.mem_toFinset.mpr hg) hfg ?_ k l (List.mem_toFinset.mpr hk) (List.mem_toFinset.mpr hl)
+    (Ne.symm fk) (Ne.symm gk) (Ne.symm fl) (Ne.symm gl)
+  · intro p hp q hq' r hr t ht n1 n2 n3 n4 n5 n6
+    exact hq p (mem hp) q (mem hq') r (mem hr) t (mem ht) (by simp [n1, n2, n3, n4, n5, n6])
+  · intro a ha b hb hab
+    have := hmin a (mem ha) b (mem hb) hab
+    simp only [Qfun] at this
+    rw [Cherry.qlist_eq_QF pool hnd D f g, Cherry.qlist_eq_QF pool hnd D a b] at this
+    exact this
+
+variable [CharZero α]
+
+/-- (d) **`nj_realises`** — neighbour joining inverts every additive metric with positive internal edges, for any number of taxa:
+a symmetric matrix on `n ≥ 1` taxa that satisfies the strict four-point condition is returned by `nj_tree` (pool order, first strict
+minimum of Q, incremental row sums — the definitions the driver runs) as a tree on exactly the taxa with exactly the input path
+lengths.  No hypothesis is left: `nj_realises_of_quartet_lemma` with `minQ_cherry_all`. -/
+theorem nj_realises (n : Nat) (d : Nat → Nat → α) (hd : ∀ a < n, ∀ b < n, d a b = d b a) (hn : 1 ≤ n)
+    (hq : StrictFourPoint (List.range n) d) :
+    ∃ r, njTree n d = some r ∧ (NT.leafIds r).Perm (List.range n) ∧
+      ∀ i < n, ∀ j < n, i ≠ j → NT.dist r i j = some (d i j) :=
+  nj_realises_of_quartet_lemma n d hd hn hq (fun N _ _ => minQ_cherry_all N)
+end njfull
+
+/-- (d, at the driver's own type) `frac_nj_realises`: for any number of taxa, if the `Frac` matrix handed to `drv_c14` has cells that
+denote numbers, is symmetric and satisfies the strict four-point condition (as rationals), the tree the driver prints for `nj` has
+exactly the taxa as leaves and, read through `toRat`, exactly the denoted path lengths. -/
+theorem frac_nj_realises (n : Nat) (d : Nat → Nat → Frac) (hv : ∀ a b, (d a b).den ≠ 0)
+    (hd : ∀ a < n, ∀ b < n, toRat (d a b) = toRat (d b a)) (hn : 1 ≤ n)
+    (hq : StrictFourPoint (List.range n) (fun a b => toRat (d a b))) :
+    ∃ r, njTree n d = some r ∧ (NT.leafIds (mapNT toRat r)).Perm (List.range n) ∧
+      ∀ i < n, ∀ j < n, i ≠ j → NT.dist (mapNT toRat r) i j = some (toRat (d i j)) := by
+  obtain ⟨r, hr, hq'⟩ := frac_nj_tree n d hv hd hn
+  obtain ⟨rq, hrq, hp, hdist⟩ := nj_realises n (fun a b => toRat (d a b)) hd hn hq
+  rw [hq'] at hrq; injection hrq with hrq; subst hrq
+  exact ⟨r, hr, hp, hdist⟩
+
+
 section njfive
 variable {α : Type} [Field α] [LinearOrder α] [IsStrictOrderedRing α] [CharZero α]
 
@@ -4846,7 +4908,7 @@ theorem nj_realises_five (n : Nat) (d : Nat → Nat → α) (hd : ∀ a < n, ∀
     (hq : StrictFourPoint (List.range n) d) :
     ∃ r, njTree n d = some r ∧ (NT.leafIds r).Perm (List.range n) ∧
       ∀ i < n, ∀ j < n, i ≠ j → NT.dist r i j = some (d i j) := by
-  apply nj_realises_of_quartet_lemma_partial n d hd hn hq
+  apply nj_realises_of_quartet_lemma n d hd hn hq
   intro N h4 hN
   have : N = 4 ∨ N = 5 := by omega
   rcases this with rfl | rfl
@@ -5177,7 +5239,7 @@ variable {α : Type} [Field α] [LinearOrder α] [IsStrictOrderedRing α] [CharZ
 /-- (d) `nj_inverts_tree_five` — the NJ clause of the property for up to five taxa, about trees: for every binary tree `src` on the
 taxa `0 … n-1`, `n ≤ 5`, with non-negative edge lengths and positive internal edge lengths, `nj_tree` applied to the
 path-length matrix of `src` returns a tree on exactly the taxa in which every two taxa are exactly as far apart as in `src`
-(`tree_four_point` + `nj_realises_five`).  For `n ≥ 6` the same statement follows from `nj_realises_of_quartet_lemma_partial`
+(`tree_four_point` + `nj_realises_five`).  For `n ≥ 6` the same statement follows from `nj_realises_of_quartet_lemma`
 once `MinQCherryAt α N` is available for `6 ≤ N ≤ n`. -/
 theorem nj_inverts_tree_five (n : Nat) (src : NT α) (hnn : NT.Nonneg src) (hp : NT.PosInternal src)
     (hnd : (NT.leafIds src).Nodup) (hl : (NT.leafIds src).Perm (List.range n)) (h5 : n ≤ 5) :
@@ -5194,35 +5256,173 @@ theorem nj_inverts_tree_five (n : Nat) (src : NT α) (hnn : NT.Nonneg src) (hp :
   obtain ⟨⟨n1, n2, n3⟩, ⟨n4, n5⟩, n6⟩ := hn4
   exact tree_four_point src hnn hp hnd p (hmem p hp') q (hmem q hq) r (hmem r hr) t (hmem t ht) n1 n2 n3 n4 n5 n6
 
-/-- the general statement with its one missing ingredient made explicit: NJ inverts the distances of every tree with positive
-internal edges on `n` taxa, given the cherry-picking lemma for pools of `6 … n` labels -/
-theorem nj_inverts_tree_partial (n : Nat) (src : NT α) (hnn : NT.Nonneg src) (hp : NT.PosInternal src)
-    (hnd : (NT.leafIds src).Nodup) (hl : (NT.leafIds src).Perm (List.range n))
-    (hlem : ∀ N, 6 ≤ N → N ≤ n → MinQCherryAt α N) :
+/-- (d) **`nj_inverts_tree`** — the NJ clause of the property about trees, for any number of taxa: for every binary tree `src` on
+the taxa `0 … n-1` with non-negative edge lengths and positive internal edge lengths, `nj_tree` applied to the path-length matrix of
+`src` returns a tree on exactly the taxa in which every two taxa are exactly as far apart as in `src`
+(`tree_four_point` + `nj_realises`).  What is not formalised is the last step from "the same path lengths" to "the same unrooted
+topology and edge lengths" (uniqueness of the tree realising an additive metric; for ultrametric trees it is `ultra_unique`). -/
+theorem nj_inverts_tree (n : Nat) (src : NT α) (hnn : NT.Nonneg src) (hp : NT.PosInternal src)
+    (hnd : (NT.leafIds src).Nodup) (hl : (NT.leafIds src).Perm (List.range n)) :
     ∃ r, njTree n (NT.dmat src) = some r ∧ (NT.leafIds r).Perm (List.range n) ∧
       ∀ i < n, ∀ j < n, i ≠ j → NT.dist r i j = some (NT.dmat src i j) := by
   have hmem : ∀ i, i ∈ List.range n → i ∈ NT.leafIds src := fun i hi => hl.mem_iff.mpr hi
   have hn : 1 ≤ n := by
     have := List.length_pos_iff.mpr (leafIds_ne_nil src)
     rw [hl.length_eq, List.length_range] at this; exact this
-  refine nj_realises_of_quartet_lemma_partial n (NT.dmat src) (fun a _ b _ => by simp only [NT.dmat, dist_symm src a b]) hn ?_ ?_
-  · intro p hp' q hq r hr t ht hn4
-    simp only [List.nodup_cons, List.mem_cons, List.mem_singleton, not_or, List.not_mem_nil, not_false_eq_true,
-      List.nodup_nil, and_true] at hn4
-    obtain ⟨⟨n1, n2, n3⟩, ⟨n4, n5⟩, n6⟩ := hn4
-    exact tree_four_point src hnn hp hnd p (hmem p hp') q (hmem q hq) r (hmem r hr) t (hmem t ht) n1 n2 n3 n4 n5 n6
-  · intro N h4 hN
-    by_cases h6 : 6 ≤ N
-    · exact hlem N h6 hN
-    · have : N = 4 ∨ N = 5 := by omega
-      rcases this with rfl | rfl
-      · exact minQ_cherry_four
-      · exact minQ_cherry_five
+  refine nj_realises n (NT.dmat src) (fun a _ b _ => by simp only [NT.dmat, dist_symm src a b]) hn ?_
+  intro p hp' q hq r hr t ht hn4
+  simp only [List.nodup_cons, List.mem_cons, List.mem_singleton, not_or, List.not_mem_nil, not_false_eq_true,
+    List.nodup_nil, and_true] at hn4
+  obtain ⟨⟨n1, n2, n3⟩, ⟨n4, n5⟩, n6⟩ := hn4
+  exact tree_four_point src hnn hp hnd p (hmem p hp') q (hmem q hq) r (hmem r hr) t (hmem t ht) n1 n2 n3 n4 n5 n6
 end treefour4
 
 /-- non-vacuity: the five-taxon tree ((0:1,1:1):1,(2:1,(3:1,4:1):1):1) — as an unrooted tree ((0,1),2,(3,4)) -/
 example := nj_inverts_tree_five (α := ℚ) 5
   (.node (.node (.leaf 0) 1 (.leaf 1) 1) 1 (.node (.leaf 2) 1 (.node (.leaf 3) 1 (.leaf 4) 1) 1) 1)
   (by simp [NT.Nonneg]) (by simp [NT.PosInternal]) (by decide) (by decide) (by decide)
+
+/-- non-vacuity beyond five taxa: the eight-taxon tree (((0,1),(2,3)),((4,5),(6,7))) with unequal edge lengths -/
+example := nj_inverts_tree (α := ℚ) 8
+  (.node (.node (.node (.leaf 0) 1 (.leaf 1) 2) (1/2) (.node (.leaf 2) 3 (.leaf 3) 1) 2) 1
+         (.node (.node (.leaf 4) 1 (.leaf 5) 1) 3 (.node (.leaf 6) (1/4) (.leaf 7) 5) 1) (3/2))
+  (by simp [NT.Nonneg]; norm_num) (by simp [NT.PosInternal]) (by decide) (by decide)
+
+
+/-! ## tie A: the kernels of `nj_tree` / `upgma_tree` regenerated from the source (`Gen/C14Kernels.lean`) are the model's formulas -/
+section genbridge
+set_option linter.unusedTactic false
+set_option linter.unreachableTactic false
+set_option linter.unnecessarySeqFocus false
+/-- close an identity between a model formula and a regenerated one, whatever is left of it after unfolding -/
+local macro "kfin" : tactic => `(tactic| first | (push_cast; ring) | (push_cast; done) | ring | rfl)
+variable {α : Type} [Field α]
+
+/-- tie A: the model's Q-criterion is the regenerated `qvalue` expression (while the pool has at least two members, as in the loop) -/
+theorem gen_njQ (s : NJ α) (p : Nat × Nat) (h2 : 2 ≤ s.pool.length) :
+    qval s p = C14Kernels.njQ s.pool.length (s.d p.1 p.2) (s.x p.1) (s.x p.2) := by
+  simp only [qval, C14Kernels.njQ, Nat.cast_sub h2] <;> kfin
+
+/-- tie A: the model's reduced distance d(u,k) is the regenerated `0.5 * (v1 - v3)` -/
+theorem gen_njNewDist (s : NJ α) (f g k : Nat) :
+    njNewDist s f g k = C14Kernels.njNewDist (s.d k f) (s.d k g) (s.d f g) := by
+  simp only [njNewDist, C14Kernels.njNewDist] <;> kfin
+
+/-- tie A: the distances after a join, cell by cell, with the regenerated reduced distance -/
+theorem gen_njJoin_d (s : NJ α) (f g a b : Nat) :
+    (njJoin s f g).d a b =
+      if a = s.next then C14Kernels.njNewDist (s.d b f) (s.d b g) (s.d f g)
+      else if b = s.next then C14Kernels.njNewDist (s.d a f) (s.d a g) (s.d f g) else s.d a b := by
+  simp only [njJoin, gen_njNewDist]
+
+/-- tie A: the incremental `_nj_xsub` bookkeeping of a join is the regenerated update: the new node accumulates the regenerated
+step from the regenerated initial value over the remaining pool, every other member gets the regenerated correction -/
+theorem gen_njJoin_x (s : NJ α) (f g k : Nat) :
+    (njJoin s f g).x k =
+      if k = s.next then
+        ((s.pool.erase f).erase g).foldl (fun acc m => C14Kernels.njNewXsubStep acc (s.d m f) (s.d m g) (s.d f g)) C14Kernels.njNewXsubInit
+      else C14Kernels.njNodeXsub (s.x k) (s.d k f) (s.d k g) (s.d f g) (s.d f k) (s.d g k) := by
+  simp only [njJoin]
+  split
+  · have e : (fun acc m => acc + njNewDist s f g m) =
+        (fun acc m => C14Kernels.njNewXsubStep acc (s.d m f) (s.d m g) (s.d f g)) := by
+      funext acc m
+      simp only [njNewDist, C14Kernels.njNewXsubStep] <;> kfin
+    have z : (0 : α) = C14Kernels.njNewXsubInit := by simp only [C14Kernels.njNewXsubInit] <;> kfin
+    rw [e, z]
+  · simp only [njNewDist, C14Kernels.njNodeXsub] <;> kfin
+
+/-- tie A: the two branch lengths of a join, both branches and the threshold of `if n > 2`, are the regenerated ones -/
+theorem gen_njLengths [CharZero α] (s : NJ α) (f g : Nat) :
+    njLengths s f g = C14Kernels.njLengths s.pool.length (s.d f g) (s.x f) (s.x g) := by
+  simp only [njLengths, C14Kernels.njLengths, gt_iff_lt, ge_iff_le]
+  by_cases h : 2 < s.pool.length
+  · have h2 : 2 ≤ s.pool.length := by omega
+    have h3 : 3 ≤ s.pool.length := h
+    have e : ((2 * (s.pool.length - 2) : Nat) : α) = 2 * ((s.pool.length : α) - 2) := by
+      rw [Nat.cast_mul, Nat.cast_sub h2]; norm_num
+    simp only [h, h3, if_true, e] <;> (refine Prod.ext ?_ ?_ <;> simp only <;> kfin)
+  · have h3 : ¬ 3 ≤ s.pool.length := by omega
+    simp only [h, h3, if_false] <;> (refine Prod.ext ?_ ?_ <;> simp only <;> kfin)
+
+/-- tie A: `while n > 1` is the guard of `njRun` -/
+theorem gen_njContinue (s : NJ α) : C14Kernels.njContinue s.pool.length = decide (s.pool.length > 1) := by
+  simp only [C14Kernels.njContinue, gt_iff_lt, ge_iff_le, decide_eq_decide] <;> omega
+
+/-- tie A: both minimum searches replace the minimum only by a strictly smaller value (what `argmin` does) -/
+theorem gen_pick_strict : C14Kernels.njPickStrict = true ∧ C14Kernels.upPickStrict = true := ⟨rfl, rfl⟩
+
+/-- tie A: the model's size-weighted cluster average is the regenerated `d1 / count` -/
+theorem gen_upNewDist (s : UP α) (f g k : Nat) :
+    upNewDist s f g k = C14Kernels.upAvg (s.d f k) (s.d g k) (s.cl f).length (s.cl g).length := by
+  simp only [upNewDist, C14Kernels.upAvg] <;> kfin
+
+/-- tie A: the edge lengths UPGMA assigns at a join are the regenerated `elen - _upgma_distance_from_tip` -/
+theorem gen_upJoin_sub (s : UP α) (f g k : Nat) :
+    (upJoin s f g).sub k =
+      if k = s.next then .node (s.sub f) (C14Kernels.upLenF (s.d f g) (s.h f) (s.h g)) (s.sub g) (C14Kernels.upLenG (s.d f g) (s.h f) (s.h g))
+      else s.sub k := by
+  have e1 : s.d f g / ((2 : Nat) : α) - s.h f = C14Kernels.upLenF (s.d f g) (s.h f) (s.h g) := by
+    simp only [C14Kernels.upLenF] <;> kfin
+  have e2 : s.d f g / ((2 : Nat) : α) - s.h g = C14Kernels.upLenG (s.d f g) (s.h f) (s.h g) := by
+    simp only [C14Kernels.upLenG] <;> kfin
+  simp only [upJoin, e1, e2]
+
+/-- tie A: the new cluster's distance from the tips is the regenerated one -/
+theorem gen_upJoin_h (s : UP α) (f g k : Nat) :
+    (upJoin s f g).h k = if k = s.next then C14Kernels.upHeight (s.d f g) (s.h f) (s.h g) else s.h k := by
+  simp only [upJoin]
+  split
+  · simp only [C14Kernels.upHeight] <;> kfin
+  · rfl
+end genbridge
+
+/-! ## the traced states of the two main loops (ops `njtrace` / `uptrace`) are the states of the runs the theorems speak about -/
+section states
+variable {α : Type} [Field α] [LinearOrder α]
+
+/-- the traced states: `njRun` is one more step after the last state listed by `njStates` (so the listing the driver prints for
+`njtrace` is the run the theorems speak about) -/
+theorem nj_run_states : ∀ (fuel : Nat) (s : NJ α), njRun fuel s = ((njStates fuel s).getLast?.map njStep).getD s
+  | 0, s => by simp [njRun, njStates]
+  | fuel + 1, s => by
+    simp only [njRun, njStates]
+    split
+    · rw [nj_run_states fuel (njStep s)]
+      cases h : njStates fuel (njStep s) with
+      | nil => simp
+      | cons a l =>
+        cases hgl : (a :: l).getLast? with
+        | none => simp at hgl
+        | some b => simp [hgl]
+    · simp
+
+/-- every traced state satisfies the row-sum invariant and has at least two pool members: the `_nj_xsub` values printed by `njtrace`
+are the row sums of the distances of that state -/
+theorem nj_states_inv : ∀ (fuel : Nat) (s : NJ α), NJInv s → ∀ t ∈ njStates fuel s, NJInv t ∧ 1 < t.pool.length
+  | 0, s, _, t, ht => by simp [njStates] at ht
+  | fuel + 1, s, h, t, ht => by
+    simp only [njStates] at ht
+    split at ht
+    · rename_i hl
+      rcases List.mem_cons.mp ht with rfl | ht'
+      · exact ⟨h, hl⟩
+      · exact nj_states_inv fuel (njStep s) (nj_step_inv s h) t ht'
+    · simp at ht
+
+theorem up_run_states : ∀ (fuel : Nat) (s : UP α), upRun fuel s = ((upStates fuel s).getLast?.map upStep).getD s
+  | 0, s => by simp [upRun, upStates]
+  | fuel + 1, s => by
+    simp only [upRun, upStates]
+    split
+    · rw [up_run_states fuel (upStep s)]
+      cases h : upStates fuel (upStep s) with
+      | nil => simp
+      | cons a l =>
+        cases hgl : (a :: l).getLast? with
+        | none => simp at hgl
+        | some b => simp [hgl]
+    · simp
+end states
 
 end DendroModel.C14
